@@ -135,6 +135,12 @@ def build_pool():
     for fmt in sorted(c08.MANY):
         fname, recipes = c08.MANY[fmt]
         pool.append({"op": "dump_many", "fmt": fmt, "out": fname, "src": recipes[0]["file"]})
+        # a shorter trajectory under the same name (in histories the name may exist already, with more content)
+        pool.append({"op": "dump_many", "fmt": fmt, "out": fname, "src": recipes[0]["file"], "nframes": 1})
+    # conversions whose output lies in a directory that does not exist (shared by all clients of a run): the operating
+    # system's error is the outcome, alone and interleaved
+    for k_, (inp, outn) in enumerate((("water.xyz", "c.xyz"), ("water_trajectory.xyz", "c.pdb"), ("h2o_sto3g.fchk", "c.molden"))):
+        pool.append({"op": "convert", "file": inp, "out": outn, "shared_dir": "results/run1", "allow_changes": True})
     # inputs whose arithmetic overflows / divides by zero (results flip if the floating-point error state leaks)
     far_mol2 = unk_mol2.replace("Xx1        0.0000    0.0000    0.0000 Xx", "C1    1.0e308    0.0000    0.0000 C ").replace("Qq2", "O2 ").replace(" Qq ", " O  ").replace("zz", "1")
     far_xyz = "2\nfar away\nH 1.0e308 0.0 0.0\nH 0.0 0.0 0.7\n"
@@ -223,7 +229,7 @@ def prepare_call(call):
     if "obj" in call:
         prep["obj"] = gen.build(call["obj"])
     if call["op"] == "dump_many":
-        prep["frames"] = gen.all_frames(call["src"])[:4]
+        prep["frames"] = gen.all_frames(call["src"])[: call.get("nframes", 4)]
     if call.get("pause"):
         prep["pause_prep"] = prepare_call(call["pause"])  # outside the seams, like all argument preparation
     if "inline" in call:
@@ -276,8 +282,9 @@ def exec_call(call, prep, disk, prefix, reference=False):
             else:
                 ds = list(iodata.load_many(path, fmt=call.get("fmt")))
             rec = ["ok", [canon.iodata_digest(d) for d in ds]]
-        if call.get("faults") and "out" in call:
-            disk.plans[prefix + call["out"]] = seams.WritePlan.from_faults(call["faults"])
+        if "out" in call:
+            # (also without faults: under a name used before, the fault plan of the earlier call must not linger)
+            disk.plans[prefix + call["out"]] = seams.WritePlan.from_faults(call.get("faults"))
         if op == "dump_one":
             if call.get("first") and not reference:
                 try:
@@ -298,12 +305,19 @@ def exec_call(call, prep, disk, prefix, reference=False):
             rec = ["ok", common.short(disk.get(out) or b"", 16)]
         elif op == "convert":
             out = prefix + call["out"]
+            if call.get("shared_dir"):
+                out = call["shared_dir"] + "/" + prefix.replace("/", "_") + call["out"]
             fmt = "json_qcschema" if call["file"].endswith(".json") else None
             convert(path, out, many=call.get("many", False), infmt=fmt, outfmt=call.get("outfmt"), allow_changes=call.get("allow_changes", False))
             rec = ["ok", common.short(disk.get(out) or b"", 16)]
     except Exception as exc:  # noqa: BLE001 - part of the outcome
         cause = exc.__cause__
-        rec = ["exc", type(exc).__name__, str(exc).replace(prefix, "")[:200],
+        msg_ = str(exc)
+        if prefix:
+            msg_ = msg_.replace(prefix, "")
+            if call.get("shared_dir"):
+                msg_ = msg_.replace(call["shared_dir"] + "/" + prefix.replace("/", "_"), call["shared_dir"] + "/")
+        rec = ["exc", type(exc).__name__, msg_[:200],
                None if cause is None else type(cause).__name__]
     return rec
 
@@ -324,6 +338,7 @@ def _child_reference(call, wfd):
         guard = canon.TableGuard()  # after the arguments were prepared: only the call itself is observed
         probe = sched.GlobalStoreProbe()
         disk = seams.SimDisk(log_events=False)
+        disk.declare_missing("results")
         with seams.Installed(disk), seams.MemPoison(0), sched.Steps(sched=probe) as st:
             rec = exec_call(call, prep, disk, "", reference=True)
         # does this call write process-global state of any kind (tables, memo caches, rebound names)?
@@ -453,6 +468,9 @@ def _cold_start():
     (and replays in a fresh interpreter see the same state)."""
     if _GUARD is not None and _GUARD.changed():
         _GUARD.restore()
+    import linecache
+
+    linecache.clearcache()  # (process-wide cache of file contents keyed by name: part of the cold state)
 
 
 def run_history(trace, refs, stats=None):
@@ -462,6 +480,7 @@ def run_history(trace, refs, stats=None):
     preps = [prepare_call(c) for c in calls]
     _cold_start()
     disk = seams.SimDisk(log_events=False)
+    disk.declare_missing("results")
     wst = _save_warn_state()
     _set_warning_environment(trace)
     recs = []
@@ -470,7 +489,8 @@ def run_history(trace, refs, stats=None):
     with seams.Installed(disk), mem, sched.Steps(budget=_budget(calls)) as st:
         for k, (call, prep) in enumerate(zip(calls, preps)):
             try:
-                rec = exec_call(call, prep, disk, f"h{k}/")
+                # "flat" histories use the same names again and again (a name gets other content, an output exists already)
+                rec = exec_call(call, prep, disk, "" if trace.get("flat") else f"h{k}/")
             except sched.StepBudgetExceeded as exc:
                 out.append(_v("no_termination", f"call #{k} {_call_name(call)} did not return within the step budget of the history "
                               f"({_budget(calls)} steps; its calls take {sum(REF_STEPS.get(c['id'], 0) for c in calls)} alone): {exc}",
@@ -510,6 +530,7 @@ def run_threads(trace, refs, rng=None, stats=None):
     preps = [[prepare_call(c) for c in cl] for cl in clients]
     _cold_start()
     disk = seams.SimDisk(log_events=False)
+    disk.declare_missing("results")
     policy = tuple(trace["policy"])
     if trace.get("schedule") is not None:
         policy = ("replay", trace["schedule"])
@@ -610,6 +631,7 @@ for cid in {ids!r}:
     call = pool[cid]
     prep = c16.prepare_call(call)
     disk = seams.SimDisk(log_events=False)
+    disk.declare_missing("results")
     with seams.Installed(disk):
         out[cid] = c16.exec_call(call, prep, disk, "", reference=True)
     break  # one call per fresh interpreter
@@ -745,6 +767,8 @@ def run_task(task):
     erng = common.rng_for(task["seed"], ID, task["run"], "mem")
     trace["mem"] = erng.choice([0, 1, 1, 2, 3])
     trace["wfilter"] = task.get("wfilter") or erng.choice(["ignore", "always", "always"])
+    if trace["mode"] == "history":
+        trace["flat"] = erng.random() < 0.5
     if trace["mode"] == "history":
         viols, recs, steps = run_history(trace, REFS, stats)
         stats.inc("outcome.history_runs")
